@@ -164,6 +164,28 @@ StaticCase<K> gen_huge_case(Rng &r, size_t eps) {
     return sc;
 }
 
+/// Bounded-exhaustive case: the case index selects one of ALL sorted arrays of length 1..7 over 9 consecutive key values
+/// placed at lowest(), in the middle of the type and ending at max-1; every key value around them is queried.
+constexpr SmallScope kSmallScope{9, 7};
+template<class K>
+bool gen_enum_case(Ctx &c, StaticCase<K> &sc) {
+    using D = UDom<K>;
+    std::vector<unsigned> offs;
+    unsigned bs = 0;
+    if (!kSmallScope.get(c.case_idx, offs, bs)) return false;
+    const uint64_t R = D::R, U = kSmallScope.U;
+    uint64_t base = bs == 0 ? 0 : bs == 1 ? R / 2 : R - (U - 1);
+    sc.family = "enum_small_scope";
+    sc.threads = 1;
+    for (auto o : offs) sc.keys.push_back(D::to_key(base + o));
+    uint64_t qlo = base >= 2 ? base - 2 : 0, qhi = std::min<uint64_t>(R, base + U + 1);
+    for (uint64_t q = qlo; q <= qhi; ++q) sc.queries.push_back(D::to_key(q));
+    sc.queries.push_back(D::to_key(0));
+    sc.queries.push_back(D::to_key(R));
+    sc.queries.push_back(D::to_key(R / 3));
+    return true;
+}
+
 template<class K>
 StaticCase<K> make_static_case(Ctx &c, size_t eps, bool chunked, size_t maxn_small, size_t maxn_big, size_t eps_rec = 0) {
     StaticCase<K> sc;
@@ -499,7 +521,12 @@ void pgm_case(Ctx &c) {
     if (c.thorough() && c.case_idx % 16 == 15) big = size_t(1) << 20;
     StaticCase<K> sc;
     if constexpr (Mode == 2 && std::is_integral_v<K>) sc = c.given ? make_static_case<K>(c, Eps, true, 5000, big, EpsRec) : gen_huge_case<K>(c.rng, Eps);
-    else sc = make_static_case<K>(c, Eps, Chunked, c.prop("C07") ? 20000 : 5000, big, EpsRec);
+    else if constexpr (Mode == 3 && std::is_integral_v<K>) {
+        if (c.given) sc = make_static_case<K>(c, Eps, false, 5000, big, EpsRec);
+        else if (!gen_enum_case<K>(c, sc)) { c.count("enum_cases_past_the_end"); return; }
+        c.count("enum_cases");
+        c.maxc("enum_space_per_configuration", kSmallScope.total());
+    } else sc = make_static_case<K>(c, Eps, Chunked, c.prop("C07") ? 20000 : 5000, big, EpsRec);
     if constexpr (std::is_floating_point_v<K>) {
         if (!float_domain_ok<K, Floating>(sc.keys)) {
             c.count("float_domain_rejected");
@@ -524,6 +551,9 @@ void pgm_case(Ctx &c) {
                 (&::vf::pgm_case<K, E, ER, F, 0>), 1.0);                                                           \
     VF_REGISTER(std::string("pgm/") + ::vf::KT<K>::name() + ",e" #E ",er" #ER "," #F "#chunk",                        \
                 (&::vf::pgm_case<K, E, ER, F, 1>), 0.02)
+#define VF_PGM_ENUM(K, E, ER, F)                                                                                       \
+    VF_REGISTER(std::string("pgm/") + ::vf::KT<K>::name() + ",e" #E ",er" #ER "," #F "#enum",                         \
+                (&::vf::pgm_case<K, E, ER, F, 3>), 5.8)
 #define VF_PGM_HUGE(K, E, ER, F)                                                                                       \
     VF_REGISTER(std::string("pgm/") + ::vf::KT<K>::name() + ",e" #E ",er" #ER "," #F "#huge",                         \
                 (&::vf::pgm_case<K, E, ER, F, 2>), 0.0003)
